@@ -27,8 +27,25 @@ RULE = (
     "base's TypeVar objects or fresh ones, a twice-swapping chain, a duplicated parameter, a parameter nested in the "
     "base argument, subclasses of Dict/List) specialised over {int, str, float, bool}: all G x G pairs and G x "
     "depth<=1 pairs, judged against instances of those classes (universe.UG; o in G[X..] iff isinstance(o, G) and "
-    "the attributes declared with each parameter are in the corresponding argument). Non-trivial = accepted pair with A != B structurally and >=1 universe object inhabiting B, or a "
-    "law instance with union arity >= 2; distinct by (render A, render B, law)."
+    "the attributes declared with each parameter are in the corresponding argument); plus (F) finite classes (bool, Enum, "
+    "IntEnum, Flag, IntFlag) vs. unions of their literals (tygen.finite_literal_unions: all named members member-wise / "
+    "merged / reversed, all but one, all plus None / another literal / str, Flag: plus zero, plus every value up to all "
+    "bits): all F x F pairs and F x depth<=1/direct terms in both directions, the universe holding the flag instances that "
+    "iterating the class does not yield (zero, composites, an IntFlag value with an undeclared bit); plus (D2) further "
+    "direct values (KnownValue of every flag instance and of 8 reference functions, dict displays whose key is optional, "
+    "closed and extra-keys-typed TypedDicts with 1-2 declared keys required / optional / read-only) crossed with each "
+    "other, the depth<=1/direct terms and F; plus (K) CALLABLE types with an executable membership: signatures with <=2 "
+    "named parameters a / b (positional-only / positional-or-keyword / keyword-only, with or without default), optional "
+    "*args and **kw, every annotation int or str (quick: expected signatures annotated str in at most one place and "
+    "named a-first; thorough: all 1737); each expected signature E x every signature G ONE EDIT away (drop / add a "
+    "parameter, flip an annotation, toggle a default, change a kind, rename), plus itself, plus a seeded sample of "
+    "two-edit and arbitrary pairs; expected type = Protocol with __call__ of signature E or the CallableValue of E's "
+    "signature, provided = KnownValue of G's reference function or the Protocol of G (quick: one of the three routes per "
+    "pair, fixed by G and rotating with the seed; thorough: all three); accepted pairs are judged by RUNNING all 405 pool calls (0-3 positionals, 0-3 keywords from "
+    "a / b / a foreign name, values 1 / 's') that E's reference function executes (binds, every bound argument an "
+    "instance of its annotation) on G's reference function; 8 callable protocol types also cross the depth<=1/direct "
+    "terms as ordinary terms. Non-trivial = accepted pair with A != B structurally and >=1 universe object inhabiting B, or a "
+    "law instance with union arity >= 2, or an accepted callable pair E != G where E permits >=1 pool call; distinct by (render A, render B, law)."
 )
 ASSUMPTIONS = [
     "vp.ty.member over the fixed universe U (about 100 objects, plus 3 namedtuple instances, plus about 160 instances "
@@ -41,15 +58,27 @@ ASSUMPTIONS = [
     "NewType: plain supertype instances are members at run time, so pairs whose A mentions a NewType are not judged for soundness",
     "user-defined generic classes: membership of an instance in G[X1..Xn] is decided by vp.ty.GEN_VIEWS (attributes "
     "declared with each own type parameter); the classes' constructors fill base-class attributes as their headers declare",
+    "callable types: a function is NOT a member of the callable type of signature E when some call of the fixed pool runs "
+    "on E's reference function (CPython binds it, the generated body finds every argument inside its annotation) and "
+    "raises on that function; nothing is concluded from the absence of such a call; the reference function of G is a "
+    "member of every form of the type built from G (its KnownValue, the Protocol with that __call__, the CallableValue)",
+    "KnownValue(function) as a TARGET is read as the callable type of the function's signature (pyanalyze documents "
+    "Literal[function] as equivalent to a Callable type), as a source as the type whose one known member is the function",
+    "flag enumerations: CPython's isinstance decides membership of zero / composite / undeclared-bit values in the class; "
+    "a literal contains an enum object iff same class and same _value_",
 ]
 FLOORS = {
     "quick": {"distinct_nontrivial": 20000, "pairs": 200000, "accepted_pairs": 15000, "law_instances": 20000, "e2e_lines": 1000,
-              "wide_union_terms": 50, "wide_pairs": 16000, "wide_accepts_container_literal_checks": 3000, "generic_pairs": 15000, "generic_accepted_cross_class": 190},
+              "wide_union_terms": 50, "wide_pairs": 16000, "wide_accepts_container_literal_checks": 3000, "generic_pairs": 15000, "generic_accepted_cross_class": 190,
+              "finite_pairs": 10000, "finite_literal_union_vs_class": 150, "direct2_pairs": 3900, "callable_pairs": 5000, "callable_accepted": 1500,
+              "callable_calls_compared": 11000, "callable_term_pairs": 1300},
     "thorough": {"distinct_nontrivial": 100000, "pairs": 600000, "law_instances": 100000,
-                 "wide_union_terms": 50, "wide_pairs": 16000, "wide_accepts_container_literal_checks": 3000, "generic_pairs": 15000, "generic_accepted_cross_class": 190},
+                 "wide_union_terms": 50, "wide_pairs": 16000, "wide_accepts_container_literal_checks": 3000, "generic_pairs": 15000, "generic_accepted_cross_class": 190,
+                 "finite_pairs": 10000, "finite_literal_union_vs_class": 150, "direct2_pairs": 3900, "callable_pairs": 45000, "callable_accepted": 10000,
+                 "callable_calls_compared": 90000, "callable_term_pairs": 1300},
 }
 BARE_GENERICS = (list, dict, set, frozenset, tuple, type, *ty.GEN_VIEWS)
-EAGER = universe.U + universe.UX  # universe objects + namedtuple instances: masks computed for every term
+EAGER = universe.U + universe.UX + universe.UF + universe.UC  # universe objects + namedtuple instances + flag-enum instances (zero / composite values too) + reference functions of callable signatures: masks computed for every term
 POOL = EAGER + universe.UG  # bit j of a Term's masks is POOL[j]; the UG part is filled lazily (with_generic_objects)
 NU = len(EAGER)
 WIDE = 10
@@ -143,7 +172,7 @@ def direct_terms(ctx):
     from vp import prelude
 
     out = []
-    for it in EAGER:
+    for it in universe.U + universe.UX:
         if it.src in ("len", "ident", "(lambda: 0)"):
             continue
         out.append(make_term(ty.Lit(it.obj), KnownValue(it.obj), f"KnownValue({it.src})"))
@@ -173,6 +202,44 @@ def direct_terms(ctx):
                     f"TypedDictValue({{k: {'' if required else 'NotRequired '}{'ReadOnly ' if readonly else ''}{vname}}})"))
     out.append(make_term(ty.TypeOf(ty.Cls(prelude.A)), SubclassValue(TypedValue(prelude.A)), "SubclassValue(A)"))
     out.append(make_term(ty.TypeOf(ty.Cls(int)), SubclassValue(TypedValue(int)), "SubclassValue(int)"))
+    return out
+
+
+def direct_terms2(ctx):
+    """Further directly constructed values, crossed with the depth<=1 / direct terms and each other only: KnownValue of
+    every flag-enum instance and reference function, dict displays with optional keys, closed / extra-keys-typed TypedDicts."""
+    from pyanalyze.value import DictIncompleteValue, KnownValue, KVPair, TypedDictEntry, TypedDictValue, TypedValue
+
+    out = []
+    for it in universe.UF:
+        out.append(make_term(ty.Lit(it.obj), KnownValue(it.obj), f"KnownValue({it.src})"))
+    for it in universe.UC:
+        # pyanalyze documents Literal[function] as "equivalent to a Callable type" (KnownValue.can_assign): as a target
+        # it stands for the callable type of the function's signature; as a source its one known member is the function
+        out.append(make_term(ty.CallSig(ty._CS_PARAMS_OF[it.obj]), KnownValue(it.obj), f"KnownValue({it.src})"))
+    I, S = TypedValue(int), TypedValue(str)
+    # a dict display whose only key is optional (`{**maybe}` / conditional keys), alone and next to a required key
+    out.append(make_term(
+        ty.DictPat([(ty.Lit("a"), ty.Cls(int), False, False)]),
+        DictIncompleteValue(dict, [KVPair(KnownValue("a"), I, is_required=False)]), "DictIncompleteValue({'a'?: int})"))
+    out.append(make_term(
+        ty.DictPat([(ty.Lit("k"), ty.Cls(int), False, False), (ty.Lit("a"), ty.Cls(int), False, True)]),
+        DictIncompleteValue(dict, [KVPair(KnownValue("k"), I, is_required=False), KVPair(KnownValue("a"), I)]),
+        "DictIncompleteValue({'k'?: int, 'a': int})"))
+    # closed TypedDicts (no undeclared key) and TypedDicts whose undeclared keys have a declared value type
+    from pyanalyze.value import NO_RETURN_VALUE
+
+    for extra_v, extra_t, extra_txt in ((NO_RETURN_VALUE, True, "closed"), (I, ty.Cls(int), "extra=int"), (S, ty.Cls(str), "extra=str")):
+        for fields_v, fields_t, fields_txt in (
+            ({"a": TypedDictEntry(I)}, {"a": (ty.Cls(int), True)}, "a: int"),
+            ({"a": TypedDictEntry(I), "b": TypedDictEntry(S)}, {"a": (ty.Cls(int), True), "b": (ty.Cls(str), True)}, "a: int, b: str"),
+            ({"a": TypedDictEntry(I), "b": TypedDictEntry(S, required=False)}, {"a": (ty.Cls(int), True), "b": (ty.Cls(str), False)}, "a: int, b?: str"),
+            ({"a": TypedDictEntry(I), "k": TypedDictEntry(I, required=False, readonly=True)}, {"a": (ty.Cls(int), True), "k": (ty.Cls(int), False)}, "a: int, k?: ReadOnly int"),
+        ):
+            out.append(make_term(ty.TypedDictT("<td>", fields_t, closed=extra_t), TypedDictValue(fields_v, extra_keys=extra_v),
+                                 f"TypedDictValue({{{fields_txt}}}, {extra_txt})"))
+    out.append(make_term(ty.TypedDictT("<td>", {"a": (ty.Cls(int), True), "b": (ty.Cls(str), True)}),
+                         TypedDictValue({"a": TypedDictEntry(I), "b": TypedDictEntry(S)}), "TypedDictValue({a: int, b: str})"))
     return out
 
 
@@ -302,6 +369,24 @@ def soundness_mechanism(A: Term, B: Term, u) -> str:
         return "typeddict-accepts-plain-dict-of-str-keys"
     if A.t.kind == "TypedDict" and isinstance(u.obj, dict) and any(not isinstance(k, str) for k in u.obj):
         return "typeddict-accepts-dict-literal-with-non-str-key"
+    if A.t.kind == "TypedDict" and B.t.kind == "DictPat" and isinstance(u.obj, dict) and any(
+        req and name not in u.obj for name, (_ft, req) in A.t.args[0]
+    ):
+        return "typeddict-required-key<-dict-display-where-the-key-is-optional"
+    if A.t.kind == "TypedDict" and B.t.kind == "TypedDict" and A.t.args[1] and isinstance(u.obj, dict):
+        declared_a = {n for n, _ in A.t.args[0]}
+        if any(n not in declared_a for n, _ in B.t.args[0] if n in u.obj):
+            return "typeddict:closed-or-extra-keys-typed<-typeddict-declaring-further-keys"
+        return f"typeddict:{'closed' if A.t.args[1] is True else 'extra-keys-typed'}<-typeddict:{'open' if not B.t.args[1] else 'closed' if B.t.args[1] is True else 'extra-keys-typed'}"
+    if A.t.kind == "Union" and B.t.kind == "Cls" and B.t.extra in tygen.FINITE_CLASSES and any(
+        a.kind == "Lit" and type(a.extra.v) is B.t.extra for a in A.t.args
+    ):
+        named = tygen.finite_named_members(B.t.extra)
+        covered = all(any(a.kind == "Lit" and ty.lit_equal(m, a.extra.v) is True for a in A.t.args) for m in named)
+        return f"literal-union<-class:{tygen.finite_class_kind(B.t.extra)}:{'all-named-members-listed' if covered else 'some-named-member-not-listed'}"
+    if A.t.kind == "CallSig" or B.t.kind == "CallSig":
+        form = lambda tm: ("Literal-function" if tm.text.startswith("KnownValue(") else "callback-protocol") if tm.t.kind == "CallSig" else tm.t.kind  # noqa: E731
+        return f"{form(A)}<-{form(B)}"
     if A.t.kind == "Lit" and B.t.kind == "Lit" and isinstance(u.obj, (list, tuple, dict, set, frozenset)):
         return "literal-container-equality-crosses-bool-int"
     if A.t.kind == "Union" and len(A.t.args) >= WIDE:
@@ -471,6 +556,203 @@ def generic_terms(ctx) -> list:
     return out
 
 
+def finite_terms(ctx) -> list:
+    """(F) classes with finitely many NAMED instances and the unions of their literals."""
+    from pyanalyze.annotations import type_from_runtime
+
+    out = []
+    cases = [(f"class:{tygen.finite_class_kind(c)}", ty.Cls(c)) for c in tygen.FINITE_CLASSES] + tygen.finite_literal_unions()
+    for i, (desc, t) in enumerate(cases):
+        try:
+            v = type_from_runtime(ty.evaluate(t, i % 2))
+        except Exception:  # noqa: BLE001
+            ctx.count("terms_not_buildable")
+            continue
+        tm = make_term(t, v, ty.render(t, i % 2))
+        out.append((desc, tm))
+    return out
+
+
+# ---------------------------------------------------------------------------
+# (K) callable types with an executable membership (vp.ty.CallSig)
+
+CALLABLE_ROUTES = ("protocol<-function", "protocol<-protocol", "signature<-function")
+_CS_VALUES: dict = {}
+
+
+def callable_value(ps, form: int, checker):
+    """form 0: TypedValue of the Protocol class with this __call__; 1: KnownValue of the reference function;
+    2: CallableValue of the signature pyanalyze itself computes for that function. Built on first use."""
+    from pyanalyze.annotations import type_from_runtime
+    from pyanalyze.value import CallableValue, KnownValue
+
+    slot = _CS_VALUES.get(ps)
+    if slot is None:
+        slot = _CS_VALUES[ps] = [None, None, None]
+    if slot[form] is None:
+        if form == 0:
+            slot[0] = type_from_runtime(ty.callsig_protocol(ps))
+        elif form == 1:
+            slot[1] = KnownValue(ty.callsig_function(ps))
+        else:
+            sig = checker.signature_from_value(callable_value(ps, 1, checker))
+            slot[2] = CallableValue(sig) if sig is not None else False
+    return slot[form]
+
+
+def _cs_label(p) -> str:
+    return {ty.VA: "*", ty.VK: "**"}.get(p[1], p[1] + ("=" if p[2] else ""))
+
+
+def _cs_routes(ps, call) -> dict:
+    """argument id (("p", i) | ("k", name)) -> the parameter that receives it (the call is known to bind)."""
+    pos_params = [p for p in ps if p[1] in (ty.PO, ty.PK)]
+    va = [p for p in ps if p[1] == ty.VA]
+    vk = [p for p in ps if p[1] == ty.VK]
+    by_kw = {p[0]: p for p in ps if p[1] in (ty.PK, ty.KO)}
+    out = {}
+    for i in range(len(call[0])):
+        out[("p", i)] = pos_params[i] if i < len(pos_params) else va[0]
+    for k in call[1]:
+        out[("k", k)] = by_kw.get(k) or vk[0]
+    return out
+
+
+def callable_failure(E, G, call) -> str:
+    """Mechanism class of one counterexample: the call runs on E's reference function and fails on G's."""
+    import re
+
+    pos, kw = call
+    try:
+        ty.callsig_function(G)(*pos, **kw)
+    except ty.CallSigBad:
+        re_, rg = _cs_routes(E, call), _cs_routes(G, call)
+        for arg, pg in rg.items():
+            val = pos[arg[1]] if arg[0] == "p" else kw[arg[1]]
+            if type(val).__name__ != pg[3]:
+                return (f"bound-arg-outside-annotation|expected:{_cs_label(re_[arg])}|provided:{_cs_label(pg)}|"
+                        f"{'by-keyword' if arg[0] == 'k' else 'by-position'}")
+        return "bound-arg-outside-annotation|unlocated"
+    except TypeError as e:
+        m = str(e)
+        for pat, name in (("multiple values", "multiple-values"), ("unexpected keyword", "unexpected-keyword"),
+                          ("missing", "missing-argument"), ("positional argument", "too-many-positional"),
+                          ("positional-only arguments passed as keyword", "positional-only-passed-as-keyword")):
+            if pat in m:
+                return f"provided-raises|py:{name}"
+        m = re.sub(r"^[\w.<>]+\(\) ", "", m)
+        m = re.sub(r"'[^']*'", "'N'", m)
+        return "provided-raises|py:other:" + re.sub(r"\d+", "#", m)[:60]
+    return "none"
+
+
+def judge_callable(ctx, E, G, route: int, checker, recheck_exclude_any: bool = True):
+    """E, G: signatures (parameter tuples). Soundness of `A(E) accepts B(G)` judged by executing, on G's reference
+    function (a member of every form of B), every pool call that E permits."""
+    a = callable_value(E, 2 if route == 2 else 0, checker)
+    b = callable_value(G, 0 if route == 1 else 1, checker)
+    w = {"law": "callable", "E": [list(p) for p in E], "G": [list(p) for p in G], "route": route}
+    desc = f"({ty.callsig_params_text(E)}) [{CALLABLE_ROUTES[route].split('<-')[0]}] <- ({ty.callsig_params_text(G)}) [{CALLABLE_ROUTES[route].split('<-')[1]}]"
+    if a is False:
+        ctx.count("callable_signature_unavailable")
+        return None
+    try:
+        acc = accepts(a, b, checker)
+    except Exception as e:  # noqa: BLE001
+        ctx.violation(f"raises|{type(e).__name__}|callable|{CALLABLE_ROUTES[route]}", f"{desc}: can_assign raised {e!r}", w)
+        return None
+    ctx.count("evaluations")
+    ctx.count("pairs")
+    ctx.count("callable_pairs")
+    if E == G and not acc:
+        ctx.violation(f"reflexivity|callable|{CALLABLE_ROUTES[route]}", f"{desc}: a callable type rejects its own signature", w)
+    if not acc:
+        if recheck_exclude_any:
+            with checker.set_exclude_any():
+                try:
+                    acc2 = accepts(a, b, checker)
+                except Exception:  # noqa: BLE001
+                    acc2 = False
+            ctx.count("exclude_any_rechecks")
+            if acc2:
+                ctx.violation(f"exclude-any-accepts|callable|{CALLABLE_ROUTES[route]}", f"{desc} rejected normally but accepted under set_exclude_any()", w)
+        return acc
+    ctx.count("accepted_pairs")
+    ctx.count("callable_accepted")
+    permitted = ty.callsig_mask(E)
+    ctx.histo("callable_accepted_by_edit", f"{'+'.join(_cs_label(p) for p in E) or 'none'} <- {'+'.join(_cs_label(p) for p in G) or 'none'}"[:80])
+    if permitted and E != G:
+        ctx.nontrivial((ty.callsig_params_text(E), ty.callsig_params_text(G), "callable", route))
+    bad = permitted & ~ty.callsig_mask(G)
+    ctx.count("callable_calls_compared", bin(permitted).count("1"))
+    if bad:
+        calls = ty.callsig_calls()
+        seen = set()
+        j = 0
+        while bad:
+            if bad & 1:
+                cls = callable_failure(E, G, calls[j])
+                if cls not in seen:
+                    seen.add(cls)
+                    pos, kw = calls[j]
+                    shown = ", ".join([repr(x) for x in pos] + [f"{k}={v!r}" for k, v in kw.items()])
+                    ctx.violation(
+                        f"callable|accepted-but-{cls}",
+                        f"{desc} is accepted, but the call f({shown}) is valid for the expected signature and fails on the "
+                        f"provided function ({cls})", w)
+            bad >>= 1
+            j += 1
+    return acc
+
+
+def callable_section(ctx, checker, idx: int) -> int:
+    """All (E, one-edit neighbour G) pairs (quick: E with the canonical naming only), the route rotating with the
+    pair; plus a seeded sample of two-edit neighbours and of arbitrary pairs."""
+    space = tygen.callsig_space(both_namings=ctx.tier == "thorough")
+    if ctx.tier != "thorough":
+        # int and str are unrelated, so an expected signature annotated int throughout or str in exactly one place
+        # already puts every single parameter in both relations to its (one-edit) counterpart
+        space = [E for E in space if sum(1 for p in E if p[3] != "int") <= 1]
+    # signatures of one shape (kinds in order) go to the same shard: most one-edit neighbours (annotation, default,
+    # name) are then shared between the pairs of a shard and built once
+    order = sorted(range(len(space)), key=lambda i: (tuple(p[1] for p in space[i]), i))
+    lo, hi = ctx.shard * len(order) // ctx.nshards, (ctx.shard + 1) * len(order) // ctx.nshards
+    serial = {G: n for n, G in enumerate(tygen.callsig_space(True))}
+    for i in order[lo:hi]:
+        E = space[i]
+        judge_callable(ctx, E, E, i % 3, checker)
+        for j, G in enumerate(tygen.callsig_edits(E)):
+            # quick: one route per pair, fixed by the provided signature (each is then built in one form only) and
+            # rotating with the seed
+            routes = range(3) if ctx.tier == "thorough" else ((serial[G] + ctx.seed) % 3,)
+            for r in routes:
+                judge_callable(ctx, E, G, r, checker, recheck_exclude_any=(i + j) % 4 == 0)
+    rng = ctx.rng
+    everything = list(serial)
+    for n in range(ctx.pick(250, 6000) // ctx.nshards + 1):
+        E = rng.choice(everything)
+        if n % 4 == 0:
+            G = rng.choice(everything)
+            how = "arbitrary"
+        else:
+            G = rng.choice(tygen.callsig_edits(E))
+            G = rng.choice(tygen.callsig_edits(G))
+            how = "two-edits"
+        acc = judge_callable(ctx, E, G, rng.randrange(3), checker)
+        ctx.histo("callable_sampled", f"{how}:{'accepted' if acc else 'rejected'}")
+    return idx
+
+
+def callable_terms(ctx, checker) -> list:
+    """A few callable protocol types as ordinary terms (crossed with the depth<=1 terms and every KnownValue)."""
+    out = []
+    for it in universe.UC:
+        ps = ty._CS_PARAMS_OF[it.obj]
+        t = ty.CallSig(ps)
+        out.append(make_term(t, callable_value(ps, 0, checker), ty.render(t)))
+    return out
+
+
 def wide_member_laws(ctx, W: Term, X: Term, w_accepts_x, checker) -> None:
     """The two union laws with the union's members taken one at a time (W.value.vals are pyanalyze's own flattened
     members): W accepts whatever one member accepts; W is accepted by X exactly when each member is."""
@@ -540,7 +822,7 @@ def e2e_batch(ctx, batch, checker) -> None:
 
 
 def annotation_expressible(tm: Term) -> bool:
-    return not tm.text.startswith(("KnownValue(", "MultiValuedValue(", "SequenceValue(", "DictIncompleteValue(", "TypedDictValue(", "SubclassValue("))
+    return not tm.text.startswith(("KnownValue(", "MultiValuedValue(", "SequenceValue(", "DictIncompleteValue(", "TypedDictValue(", "SubclassValue(", "CallbackProtocol["))
 
 
 def shard(ctx) -> None:
@@ -640,6 +922,50 @@ def shard(ctx) -> None:
     for i, T in enumerate(gens + wide):
         if ctx.mine(i):
             fixed_laws(ctx, T, checker)
+    # (F) finite classes x unions of their literals: all F x F pairs, F x depth<=1/direct terms in both directions
+    fin = finite_terms(ctx)
+    fterms = [tm for _d, tm in fin]
+    direct2 = direct_terms2(ctx)
+    for A in direct2:
+        for B in direct2 + small + fterms:
+            idx += 1
+            if ctx.mine(idx):
+                judge_pair(ctx, A, B, checker)
+                if B not in direct2:
+                    judge_pair(ctx, B, A, checker)
+                ctx.count("direct2_pairs")
+    small = small + direct2
+    for desc, A in fin:
+        for B in fterms + small:
+            idx += 1
+            if not ctx.mine(idx):
+                continue
+            acc = judge_pair(ctx, A, B, checker)
+            ctx.count("finite_pairs")
+            if B.t.kind == "Cls" and B.t.extra in tygen.FINITE_CLASSES and A.t.kind == "Union":
+                ctx.count("finite_literal_union_vs_class")
+                same = desc.split(":")[0] == tygen.finite_class_kind(B.t.extra)
+                ctx.histo("finite_union_vs_class", f"{desc}<-{'its own class' if same else 'another finite class'}:{'accepted' if acc else 'rejected'}")
+            if acc is not None and annotation_expressible(A) and annotation_expressible(B) and rng.random() < 0.02:
+                e2e.append((A, B, acc))
+        for B in small:
+            idx += 1
+            if ctx.mine(idx):
+                judge_pair(ctx, B, A, checker)
+                ctx.count("finite_pairs")
+    # (K) callable types: signature pairs judged by executing calls; a few of them as ordinary terms
+    idx = callable_section(ctx, checker, idx)
+    kterms = callable_terms(ctx, checker)
+    for A in kterms:
+        for B in kterms + small:
+            idx += 1
+            if ctx.mine(idx):
+                judge_pair(ctx, A, B, checker)
+                judge_pair(ctx, B, A, checker)
+                ctx.count("callable_term_pairs", 2)
+    for i, T in enumerate(fterms + kterms + direct2):
+        if ctx.mine(i):
+            fixed_laws(ctx, T, checker)
     # (3) union laws over random triples
     for _ in range(ctx.pick(3000, 20000)):
         A, B1, B2 = rng.choice(allterms), rng.choice(allterms), rng.choice(allterms)
@@ -662,9 +988,12 @@ def _term_by_text(text: str):
 
     if not _TERM_CACHE:
         ctx = Ctx(ID, "quick", 0, 0, 1)
-        for tm in build_terms(ctx) + direct_terms(ctx) + generic_terms(ctx) + wide_terms(ctx):
-            _TERM_CACHE[tm.text] = tm
-    if text not in _TERM_CACHE and not text.startswith(("KnownValue(", "MultiValuedValue(", "SequenceValue(", "DictIncompleteValue(", "TypedDictValue(", "SubclassValue(")):
+        from pyanalyze.checker import Checker
+
+        for tm in (build_terms(ctx) + direct_terms(ctx) + generic_terms(ctx) + wide_terms(ctx) + [tm for _d, tm in finite_terms(ctx)] + direct_terms2(ctx)
+                   + callable_terms(ctx, Checker())):
+            _TERM_CACHE.setdefault(tm.text, tm)
+    if text not in _TERM_CACHE and not text.startswith(("KnownValue(", "MultiValuedValue(", "SequenceValue(", "DictIncompleteValue(", "TypedDictValue(", "SubclassValue(", "CallbackProtocol[")):
         # a sampled term (e.g. a wide union of another seed): rebuild it from its annotation text
         from pyanalyze.annotations import type_from_runtime
         from vp.props.c03 import _find_ty
@@ -684,6 +1013,11 @@ def replay(witness):
     ctx = Ctx(ID, "quick", 0, 0, 1)
     checker = Checker()
     law = witness["law"]
+    if law == "callable":
+        judge_callable(ctx, tuple(tuple(p) for p in witness["E"]), tuple(tuple(p) for p in witness["G"]), witness["route"], checker)
+        for key, lst in ctx.violations.items():
+            return key, lst[0]["what"]
+        return None
     A = _term_by_text(witness["A"])
     if A is None:
         return None
